@@ -390,7 +390,8 @@ def find_check_cache(context):
         # searched can change even when the results don't (e.g. a new, empty
         # subdirectory), so keep the list of directories that trigger
         # regeneration up to date.
-        _write_find_deps(context.env, context.build['find_dirs'])
+        _write_find_deps(context.env, context.build['find_dirs'],
+                         regen_files)
 
         # To make sure the build backend is happy, update the modification time
         # of all the output files.
@@ -400,11 +401,22 @@ def find_check_cache(context):
         raise AbortConfigure()
 
 
-def _write_find_deps(env, find_dirs):
+def _make_depfile_target(regen_files):
+    # When regeneration has several outputs (e.g. the Makefile plus generated
+    # pkg-config files), the Make backend hangs the recipe on a stamp file (see
+    # `make.multitarget_rule`), and that is what must depend on the searched
+    # directories; a dependency of the Makefile itself would never re-run it.
+    if len(regen_files.outputs) > 1:
+        return make.filepath.addext('.stamp')
+    return make.filepath
+
+
+def _write_find_deps(env, find_dirs, regen_files):
     if not find_dirs:
         return
     if env.backend == 'make':
-        write_depfile(env, Path(depfile_name), make.filepath, find_dirs,
+        write_depfile(env, Path(depfile_name),
+                      _make_depfile_target(regen_files), find_dirs,
                       makeify=True)
     elif env.backend == 'ninja':
         write_depfile(env, Path(depfile_name), ninja.filepath, find_dirs)
@@ -412,15 +424,16 @@ def _write_find_deps(env, find_dirs):
 
 @make.post_rules_hook
 def make_find_dirs(build_inputs, buildfile, env):
+    regen_files = regenerate.RegenerateFiles.make(build_inputs, env)
     if build_inputs['find_dirs']:
-        write_depfile(env, Path(depfile_name), make.filepath,
+        write_depfile(env, Path(depfile_name),
+                      _make_depfile_target(regen_files),
                       build_inputs['find_dirs'], makeify=True)
         buildfile.include(depfile_name)
 
-    FindCacheFile(
-        regenerate.RegenerateFiles.make(build_inputs, env),
-        build_inputs['find_cache']
-    ).save(env.builddir.string())
+    FindCacheFile(regen_files, build_inputs['find_cache']).save(
+        env.builddir.string()
+    )
 
 
 @ninja.post_rules_hook
